@@ -13,7 +13,10 @@ writes outside the translated set is a field of the structure `TimerPrims`; a ca
 (`self._set_timer(…)` in `_start_timer`, `self._stop_timer()` in `stop`) becomes a call of its translation.
 L is the record of the method's parameters (a0, a1, …; a parameter may be re-assigned); other locals are
 λ-bound by the statement that assigns them (`x = <call>`, `(x := …) is not None`, `a, b, c = istate`,
-`try: x = D[k] except KeyError: raise …`, `if c: x = A else: x = B`) and cannot be re-assigned.
+`try: x = D[k] except KeyError: raise …`, `if c: x = A else: x = B`) and cannot be re-assigned.  One more kind of
+local lives in L: a name that is set to `None` at the top level of the body and later to a pair
+`(duration, timed event)` (`timer_args` of `_restore_state`): field `v<i> : Option (Dv × TE)`; `if x is not None:`
+binds the pair for its branch (which must not re-assign x) and `self._set_timer(*x)` passes its two components.
 
 Discrimination rules (see tools/py2lean_fsm.py): every comparison operator is kept (`duration <= 0.0` is the
 may-raise primitive `cmpZero .le`, `<` would be `.lt`), `== INF_TIME` is not `is INF_TIME`, `is None` only on
@@ -149,6 +152,32 @@ class TrTimer:
         self.params = [(n, f'a{i}', t) for i, (n, t) in enumerate(zip(names[1:], ptypes))]
         if fn.decorator_list:
             raise U('decorated')
+        # locals that hold `None` or a pair (duration, timed event) and are RE-ASSIGNED: `x = None` at the top level of
+        # the body (it dominates every later statement), later `x = (d, ev)`; they live in the record of locals
+        self.mlocals = []
+        for st in fn.body:
+            if (isinstance(st, ast.Assign) and len(st.targets) == 1 and isinstance(st.targets[0], ast.Name)
+                    and isinstance(st.value, ast.Constant) and st.value.value is None
+                    and st.targets[0].id not in names and self.mlocal(st.targets[0].id) is None):
+                name = st.targets[0].id
+                for n in ast.walk(fn):
+                    if isinstance(n, ast.Name) and n.id == name and (n.lineno, n.col_offset) < (st.lineno, st.col_offset):
+                        raise U(f'{name} is used before `{name} = None`')
+                    if isinstance(n, (ast.Global, ast.Nonlocal)) and name in n.names:
+                        raise U(f'{name} is not a local')
+                    if isinstance(n, (ast.FunctionDef, ast.Lambda, ast.AsyncFunctionDef)) and n is not fn:
+                        raise U('nested function')
+                self.mlocals.append((name, f'v{len(self.mlocals)}'))
+
+    def mlocal(self, name):
+        for m in self.mlocals:
+            if m[0] == name:
+                return m
+        return None
+
+    def assigns(self, stmts, name):
+        return any(isinstance(n, ast.Name) and n.id == name and not isinstance(n.ctx, ast.Load)
+                   for st in stmts for n in ast.walk(st))
 
     # ---- helpers ------------------------------------------------------------------
     def path(self, node):
@@ -368,8 +397,19 @@ class TrTimer:
         if call.keywords:
             raise U('keyword arguments in ' + ast.unparse(call)[:80])
         fp = self.path(call.func)
-        args = [self.expr(a, env) for a in call.args]
+        args = []
+        for a in call.args:
+            if isinstance(a, ast.Starred):
+                # `*pair` where pair is a local narrowed to a (duration, timed event) tuple
+                if isinstance(a.value, ast.Name) and env.get(a.value.id, (None, None))[1] == 'P':
+                    t = env[a.value.id][0]
+                    args += [(f'{t}.1', 'Dv'), (f'{t}.2', 'TE')]
+                    continue
+                raise U('starred argument ' + ast.unparse(a)[:40])
+            args.append(self.expr(a, env))
         tys = [ty for _, ty in args]
+        if 'P' in tys:
+            raise U('a (duration, event) pair passed as one argument')
         txt = ''.join(' ' + t for t, _ in args)
         if fp is not None and fp.startswith('self.') and fp[5:] in self.done:
             lean, ptypes = self.done[fp[5:]]
@@ -411,8 +451,24 @@ class TrTimer:
         if self.ignorable(s):
             return self.block(rest, env)
         # --- statements that bind a name for the rest of the block
+        if (isinstance(s, ast.If) and isinstance(s.test, ast.Compare) and len(s.test.ops) == 1
+                and isinstance(s.test.ops[0], (ast.Is, ast.IsNot)) and isinstance(s.test.left, ast.Name)
+                and isinstance(s.test.comparators[0], ast.Constant) and s.test.comparators[0].value is None
+                and self.mlocal(s.test.left.id) is not None and s.test.left.id not in env):
+            # if pair is [not] None: …      (the branch that sees the pair must not re-assign it)
+            neg = isinstance(s.test.ops[0], ast.IsNot)
+            name = s.test.left.id
+            some_body, none_body = (s.body, s.orelse) if neg else (s.orelse, s.body)
+            if self.assigns(some_body, name):
+                raise U(f'{name} is re-assigned where it is known to be a pair')
+            var = self.fresh('t')
+            some_ = self.nested(some_body, {**env, name: (var, 'P')})
+            none_ = self.nested(none_body, env)
+            first = (f'matchOpt (fun sl => sl.2.{self.mlocal(name)[1]})\n{self.ind("(" + none_ + ")")}\n  (fun {var} =>\n'
+                     f'{self.ind(some_, 2)})')
+            return self.seq(first, self.block(rest, env))
         if isinstance(s, ast.Assign) and len(s.targets) == 1 and isinstance(s.targets[0], ast.Name) \
-                and self.param(s.targets[0].id) is None:
+                and self.param(s.targets[0].id) is None and self.mlocal(s.targets[0].id) is None:
             name = s.targets[0].id
             if name in env:
                 raise U(f'{name} is assigned twice')
@@ -591,6 +647,17 @@ class TrTimer:
             tgt, val = s.targets[0], s.value
             p = self.path(tgt)
             q = self.param(p) if isinstance(tgt, ast.Name) else None
+            m = self.mlocal(p) if isinstance(tgt, ast.Name) else None
+            if m is not None:
+                if p in env:
+                    raise U(f'{p} is re-assigned where it is known to be a pair')
+                if isinstance(val, ast.Constant) and val.value is None:
+                    return f'assign (fun sl => {{ sl.2 with {m[1]} := none }})'
+                if isinstance(val, ast.Tuple) and len(val.elts) == 2:
+                    parts = [self.expr(e, env) for e in val.elts]
+                    if [ty for _, ty in parts] == ['Dv', 'TE']:
+                        return f'assign (fun sl => {{ sl.2 with {m[1]} := some ({parts[0][0]}, {parts[1][0]}) }})'
+                raise U(f'{p} = {ast.unparse(val)[:40]}: neither None nor a (duration, timed event) pair')
             if q is not None:
                 vc = self.value_call(val, env)
                 if vc is not None:
@@ -678,8 +745,11 @@ class TrTimer:
     def translate(self, lean_name, doc):
         body = self.block(list(self.fn.body), {}) or 'skip'
         loc = f'Loc_{lean_name}'
-        fields = '\n'.join(f'  {lean} : {LEAN_T[ty]}    -- `{name}`' for name, lean, ty in self.params) or '  unit : Unit := ()'
-        tys = sorted({LEAN_T[ty].split()[-1] for _, _, ty in self.params}) or []
+        flines = [f'  {lean} : {LEAN_T[ty]}    -- `{name}`' for name, lean, ty in self.params]
+        flines += [f'  {lean} : Option (Dv × TE) := none    -- `{name}`: None or (duration, timed event)'
+                   for name, lean in self.mlocals]
+        fields = '\n'.join(flines) or '  unit : Unit := ()'
+        tys = sorted({LEAN_T[ty].split()[-1] for _, _, ty in self.params} | ({'Dv', 'TE'} if self.mlocals else set())) or []
         tparams = ' '.join(t for t in ['Dv', 'TE', 'IS'] if t in tys)
         rt = 'Unit' if self.rtype == 'Unit' else f'({GS_TYPE})'
         dflt = '()' if self.rtype == 'Unit' else '(none, none, p.getSdata s)'
